@@ -158,7 +158,26 @@ def agg_levels(plain):
     return 1 + max([agg_levels(c) for c in ch], default=0)
 
 
-def run_doc(s, text, plain, byte_level, sample_file=False):
+_EMPTY_LAST = re.compile(r"<([A-Z0-9._]+)></\1>(\s*</)")
+
+
+def bare_variants(text):
+    """The same body as the library's own end-tag-less writer spells it: an empty aggregate that is the last
+    child of its parent written as a bare <TAG>.  Valid under the reading in which a dataless, childless
+    element may omit its end tag; every single fault applied to it is still judged by the strict scanner."""
+    out = []
+    for m in _EMPTY_LAST.finditer(text):
+        t = text[: m.start()] + "<" + m.group(1) + ">" + m.group(2) + text[m.end():]
+        if X.read_lenient(t) is not None:
+            out.append(t)
+    return out[:3]
+
+
+def run_doc(s, text, plain, byte_level, sample_file=False, bare=True):
+    if bare:
+        for t in bare_variants(text):
+            s.label("base-documents-with-bare-empty-aggregate")
+            run_doc(s, t, plain, byte_level, sample_file, bare=False)
     levels = agg_levels(plain)
     first_tag_end = text.index(">") + 1
     n = 0
@@ -216,6 +235,8 @@ def _sample_worker(job):
 
 
 REAL_DOCS = [
+    "<OFX><SIGNONMSGSRSV1><SONRS><STATUS><CODE>0<SEVERITY>INFO</STATUS><DTSERVER>20200101<LANGUAGE>ENG</SONRS></SIGNONMSGSRSV1>"
+    "<SECLISTMSGSRSV1><SECLISTTRNRS><TRNUID>1<STATUS><CODE>0<SEVERITY>INFO</STATUS><SECLISTRS></SECLISTTRNRS><SECLIST></SECLISTMSGSRSV1></OFX>",
     "<OFX><SIGNONMSGSRQV1><SONRQ><DTCLIENT>20200101000000.000[+0:UTC]</DTCLIENT><USERID>u</USERID><USERPASS>p</USERPASS>"
     "<LANGUAGE>ENG</LANGUAGE><APPID>QWIN</APPID><APPVER>2700</APPVER></SONRQ></SIGNONMSGSRQV1><BANKMSGSRQV1><STMTTRNRQ>"
     "<TRNUID>1</TRNUID><STMTRQ><BANKACCTFROM><BANKID>1</BANKID><ACCTID>2</ACCTID><ACCTTYPE>CHECKING</ACCTTYPE></BANKACCTFROM>"
@@ -228,11 +249,11 @@ def _real_worker(job):
     H.setup_path()
     s = H.Stats()
     text, byte_level = job
-    v = X.classify(text)
-    if v[0] != X.WELL_FORMED:
-        raise H.HarnessError(f"real doc not well-formed: {v}")
+    tree = X.read_lenient(text)
+    if tree is None:
+        raise H.HarnessError(f"real doc not well-formed: {X.classify(text)}")
     s.label("base-documents-real")
-    run_doc(s, text, v[1], byte_level, sample_file=True)
+    run_doc(s, text, tree, byte_level, sample_file=True)
     return s
 
 
